@@ -10,6 +10,7 @@ child indices).  A canonical solution is the object tree annotated with species
 paths (and family lists): {"s": path, "f": [...], "c": [children]}.
 """
 import json
+import os
 
 from ete3 import Tree
 from infinity import inf
@@ -282,6 +283,40 @@ def algorithms():
 PLAIN = ("exh", "lca", "thl")
 
 
+# A changed package may stop answering (an enumeration that explodes, a loop that does not end).  A check must still
+# end: every solver call made through run_algo runs under a watchdog; the first call that exceeds it is reported as a
+# failure of that call ({"err": "Timeout"}) and the streams stop asking the solvers for more (TIMED_OUT).
+SOLVER_TIMEOUT = float(os.environ.get("VERIF_SOLVER_TIMEOUT", "150"))
+TIMED_OUT = []
+
+
+class SolverTimeout(BaseException):
+    pass
+
+
+class watchdog:
+    def __enter__(self):
+        import signal
+        import threading
+
+        self.armed = threading.current_thread() is threading.main_thread() and SOLVER_TIMEOUT > 0
+        if self.armed:
+            def on_alarm(signum, frame):
+                raise SolverTimeout()
+
+            self.old = signal.signal(signal.SIGALRM, on_alarm)
+            signal.setitimer(signal.ITIMER_REAL, SOLVER_TIMEOUT)
+        return self
+
+    def __exit__(self, *exc):
+        import signal
+
+        if self.armed:
+            signal.setitimer(signal.ITIMER_REAL, 0)
+            signal.signal(signal.SIGALRM, self.old)
+        return False
+
+
 def run_algo(case, algo, policy="all", **kw):
     """Run an algorithm of the package on a canonical case.
 
@@ -295,11 +330,15 @@ def run_algo(case, algo, policy="all", **kw):
     inp = build_input(case, force_plain=(algo in PLAIN), **kw)
     fn = algorithms()[algo]
     try:
-        with contextlib.redirect_stderr(io.StringIO()):
+        with watchdog(), contextlib.redirect_stderr(io.StringIO()):
             if algo == "lca":
                 outs = [fn(inp)]
             else:
                 outs = list(fn(inp, getattr(RetentionPolicy, policy.upper())))
+    except SolverTimeout:
+        TIMED_OUT.append((algo, policy))
+        return {"err": "Timeout", "msg": f"no answer within {SOLVER_TIMEOUT:.0f} s (the inputs of these checks are "
+                                         f"solved in well under a second by the unchanged package and by the model)"}
     except Exception as e:  # noqa
         return {"err": type(e).__name__, "msg": str(e)[:200]}
     try:
